@@ -84,11 +84,21 @@ def seeded(depth, cfg="full-dbg", **kw):
     weak cell of #2, scripted finalizer of #2 / destructor of #0, at most one handle kept) is an initial state."""
     a = dict(w=1, seed_family="g3", fresh=0)
     a.update(kw)
-    return R(cfg, "dyn", 3, 4, depth=depth, **a)
+    n = a.pop("n", 3)
+    return R(cfg, "dyn", n, 4, depth=depth, **a)
 
 
-seed_q = [seeded(2), seeded(1, cfg="nofin-rel"), seeded(1, seed_family="g3b")]
-seed_t = [seeded(4, cfg="full-rel", max_seconds=BIG), seeded(3), seeded(3, cfg="nofin-rel"), seeded(3, cfg="full-rel", seed_family="g3b", max_seconds=MID), seeded(3, cfg="full-rel", fin_menu="0,1,13", drop_menu="0,1,2", max_seconds=MID),
+def nested(depth, cfg="full-dbg", **kw):
+    """Family g4n: a garbage cycle (A alone or A <-> B) owns Child through an untraced (or second traced) cell, Child owns
+    Leaf; Child and Leaf carry finalizer / destructor scripts and a weak cell to a cycle member: callbacks nested two
+    and three levels deep inside the collector's dropping phase (18-operation prefixes)."""
+    a = dict(n=4, seed_family="g4n", fin_menu="0,4,6", drop_menu="0,1")
+    a.update(kw)
+    return seeded(depth, cfg=cfg, **a)
+
+
+seed_q = [seeded(2), seeded(1, cfg="nofin-rel"), seeded(1, seed_family="g3b"), nested(1)]
+seed_t = [seeded(4, cfg="full-rel", max_seconds=BIG), seeded(3), seeded(3, cfg="nofin-rel"), seeded(3, cfg="full-rel", seed_family="g3b", max_seconds=MID), nested(2, cfg="full-rel", max_seconds=MID), nested(1, fin_menu="0,1,4,5,6", drop_menu="0,1"), seeded(3, cfg="full-rel", fin_menu="0,1,13", drop_menu="0,1,2", max_seconds=MID),
           seeded(2, cfg="full-rel", c=1, action_menu="1,3,4", max_seconds=MID)]
 
 # ---- C01 no premature reclamation ---------------------------------------------------------------------------
@@ -113,6 +123,7 @@ plan("C05", Q, [
     fin_q(FIN_ALL, depth=8, cfg="full-rel"), fin_q(FIN_ALL, depth=8, cfg="nofin-rel"),
     R("full-dbg", "weakfin", 2, 3, depth=10), R("full-dbg", "weakfin", 2, 3, depth=9, fin_menu="0,1,6", drop_menu="0"), R("full-dbg", "core", 2, 3),
     R("full-dbg", "fin", 2, 3, depth=9, faults=1, fault_kinds=2, fin_menu=FIN_MIX),
+    nested(1, fin_menu="0,1,4", drop_menu="0"),
 ] + seed_q[:1])
 plan("C05", T, seed_t[:2] + [
     R("full-rel", "weakfin", 2, 3, depth=12, fin_menu="0,1,6", drop_menu="0", max_seconds=MID),
@@ -194,8 +205,9 @@ plan("C10", T, [
 ])
 
 # ---- C11 introspection counters ----------------------------------------------------------------------------------------
-plan("C11", Q, core_q + auto_q + cyclic_q + seed_q[:1] + [fin_q(FIN_RELEASE, depth=12), R("full-dbg", "weak", 2, 3, depth=12)])
-plan("C11", T, core_t + auto_t + cyclic_t + seed_t[:2] + [fin_t(FIN_RELEASE)] + weak_t[1:5] + cleaner_t)
+plan("C11", Q, core_q + auto_q + cyclic_q + seed_q[:1] + [fin_q(FIN_RELEASE, depth=12), R("full-dbg", "weak", 2, 3, depth=12),
+                R("full-dbg", "core", 2, 3, faults=1)])      # "always": the counters are also exact after a caught callback panic
+plan("C11", T, core_t + auto_t + cyclic_t + seed_t[:2] + [fin_t(FIN_RELEASE)] + weak_t[1:5] + cleaner_t + [R("full-dbg", "core", 2, 3, faults=1), R("full-rel", "fin", 2, 3, depth=11, faults=1, fin_menu=FIN_MIX, max_seconds=MID), R("full-rel", "dtor", 2, 3, depth=11, faults=1, max_seconds=MID)])
 
 # ---- C12 phases, no nesting ----------------------------------------------------------------------------------------------
 plan("C12", Q, [
@@ -205,6 +217,7 @@ plan("C12", Q, [
     # callbacks nested two levels deep by reference counting (a finalizer inside another object's drop glue, a
     # destructor inside a finalizer that releases the last reference, a finalizer inside a cleaning action): three objects
     seeded(1, cfg="full-rel", seed_family="g3b", fin_menu="0,10,11", drop_menu="0,3,4"),
+    nested(1, cfg="full-rel", fin_menu="0,4,10,11", drop_menu="0,3,4"),
     R("full-rel", "fin", 3, 3, depth=8, fin_menu="0,10,11"),
     R("full-rel", "dtor", 3, 3, depth=9, fin_menu="0,4", drop_menu="0,3,4"),
     R("full-rel", "cleaner", 3, 3, depth=8, action_menu="0,1", fin_menu="0,11"),
@@ -215,6 +228,7 @@ plan("C12", T, [
     R("full-rel", "autofin", 3, 3, depth=11, max_seconds=MID), R("nofin-rel", "dtor", 2, 3, depth=16, max_seconds=MID),
     R("full-dbg", "fin", 2, 2, fin_menu=FIN_PHASE, max_seconds=MID), R("full-dbg", "dtor", 2, 2, drop_menu=DROP_PHASE, max_seconds=MID),
     seeded(2, cfg="full-rel", seed_family="g3b", fin_menu="0,10,11,14", drop_menu="0,3,4,5", max_seconds=MID),
+    nested(2, cfg="full-rel", fin_menu="0,4,10,11", drop_menu="0,3,4", max_seconds=MID),
     R("full-rel", "fin", 3, 3, depth=10, fin_menu="0,10,11", max_seconds=MID),
     R("full-rel", "dtor", 3, 3, depth=11, fin_menu="0,4", drop_menu="0,3,4", max_seconds=MID),
     R("full-rel", "cleaner", 3, 3, depth=10, action_menu="0,1", fin_menu="0,11", max_seconds=MID),
